@@ -45,6 +45,43 @@ theorem C14_counts_of_classes (nodes nodes' : List P) (cls cls' : P → String) 
   have : (fun p => cls' p == c) = (fun p => cls p == c) := by funext p; rw [hc]
   rw [this]; exact (hp.filter _).length_eq
 
+/-! ### the two entry routes of the regenerated `branches_and_nodes` -/
+
+section Routes
+variable {G A Pg U N : Type}
+
+/-- **`already_clipped` only decides who crops.** For the regenerated orchestration, with every stage an arbitrary function: calling
+it with `already_clipped = True` on traces `X` and with `already_clipped = False` on traces `Y` gives the same result -- branches,
+labels, nodes, classes or the same exception -- whenever the prepared trace lists agree, i.e. whenever `X`, deduplicated and
+restricted to LineStrings, is what cropping `Y` (deduplicated, LineStrings) to the areas yields. Nothing downstream (snapping,
+length filters, noding, tables) looks at the flag. -/
+theorem C14_generated_routes (dedupe : List G → List G) (polys_of : A → List Pg) (is_ls : G → Bool) (crop : List G → List A → List G)
+    (snap_ : List G → Rat → List Pg → Except String (List G × Bool)) (len : G → Rat) (union_all : List G → U) (u_is_multi u_is_line : U → Bool)
+    (u_parts : U → List G) (node_table : List G → List A → Rat → List N × List String) (branch_labels : List G → List N → List String → Rat → List String)
+    (X Y : List G) (areas : List A) (t : Rat) (allowed fuel : Nat)
+    (h : (dedupe X).filter is_ls = (crop ((dedupe Y).filter is_ls) areas).filter is_ls) :
+    Gen.branches_and_nodes dedupe polys_of is_ls crop snap_ len union_all u_is_multi u_is_line u_parts node_table branch_labels X areas t allowed true fuel
+      = Gen.branches_and_nodes dedupe polys_of is_ls crop snap_ len union_all u_is_multi u_is_line u_parts node_table branch_labels Y areas t allowed false fuel := by
+  rw [Pipeline.generated_pipeline, Pipeline.generated_pipeline]
+  have : Pipeline.prepared dedupe is_ls crop X areas true = Pipeline.prepared dedupe is_ls crop Y areas false := by
+    simp only [Pipeline.prepared, if_true, Bool.false_eq_true, if_false]; exact h
+  rw [this]
+
+/-- the natural instance: handing over the traces one cropped oneself (already deduplicated LineStrings) -/
+theorem C14_generated_routes_cropped (dedupe : List G → List G) (polys_of : A → List Pg) (is_ls : G → Bool) (crop : List G → List A → List G)
+    (snap_ : List G → Rat → List Pg → Except String (List G × Bool)) (len : G → Rat) (union_all : List G → U) (u_is_multi u_is_line : U → Bool)
+    (u_parts : U → List G) (node_table : List G → List A → Rat → List N × List String) (branch_labels : List G → List N → List String → Rat → List String)
+    (Y : List G) (areas : List A) (t : Rat) (allowed fuel : Nat)
+    (hd : dedupe ((crop ((dedupe Y).filter is_ls) areas).filter is_ls) = (crop ((dedupe Y).filter is_ls) areas).filter is_ls) :
+    Gen.branches_and_nodes dedupe polys_of is_ls crop snap_ len union_all u_is_multi u_is_line u_parts node_table branch_labels
+        ((crop ((dedupe Y).filter is_ls) areas).filter is_ls) areas t allowed true fuel
+      = Gen.branches_and_nodes dedupe polys_of is_ls crop snap_ len union_all u_is_multi u_is_line u_parts node_table branch_labels Y areas t allowed false fuel := by
+  apply C14_generated_routes
+  rw [hd, List.filter_filter]
+  simp
+
+end Routes
+
 example : SameUpToOrderDir [(⟨1, 2⟩ : Branch Nat), ⟨2, 3⟩] [⟨3, 2⟩, ⟨1, 2⟩] :=
   ⟨[false, true], rfl, by decide⟩
 
